@@ -121,6 +121,12 @@ pub fn run_reproducers(world: &World, ctx: &mut Ctx, mut check: impl FnMut(&mut 
     for f in findings.iter().filter(|f| f.open() && f.properties.iter().any(|p| p == prop)) {
         for (k, rep) in f.raw["reproducers"].as_array().cloned().unwrap_or_default().iter().enumerate() {
             let id = format!("kf_{}_{}", f.id, k);
+            // a reproducer may be meant for some of the finding's properties only
+            if let Some(ps) = rep["properties"].as_array() {
+                if !ps.iter().any(|p| p.as_str() == Some(prop)) {
+                    continue;
+                }
+            }
             let gi = match world.grammars.iter().find(|g| g.g.id() == id) {
                 Some(g) => g,
                 None => continue,
